@@ -79,10 +79,14 @@ class History:
         self.seq_returned = run.seq_returned
         # a re-run case: only the second run is looked at
         self.rerun = getattr(run, 'seq_rerun', None)
+        self.stray = []
         for seq, t, kind, nid, payload in self.events:
             if kind == 'mark':
                 continue
             if self.rerun is not None and seq <= self.rerun:
+                continue
+            if nid not in self.nodes and self.rerun is not None:
+                self.stray.append((nid, seq, t))   # removed before this run
                 continue
             h = self.nodes[nid]
             if kind in ('enter', 'run_begin'):
